@@ -215,10 +215,10 @@ theorem suppression_window (w : World) :
   simp [World.suppressed]
 
 /-- How the window arises: a begin adds one outstanding scope; the end that brings the count to zero
-arms the quiesce deadline `now + 20 s`; other ends only decrement; time never shortens the deadline. -/
+arms the quiesce deadline `now + cfg.quiesce` (20 s in the current source; read from the real code at run time); other ends only decrement; time never shortens the deadline. -/
 theorem suppression_steps (w : World) :
     (step w .sbegin).1.supCount = w.supCount + 1 ∧ (step w .sbegin).1.supUntil = w.supUntil ∧
-    (w.supCount = 1 → (step w .send).1.supCount = 0 ∧ (step w .send).1.supUntil = w.now + quiesce) ∧
+    (w.supCount = 1 → (step w .send).1.supCount = 0 ∧ (step w .send).1.supUntil = w.now + w.cfg.quiesce) ∧
     (w.supCount = 0 → step w .send = (w, [])) ∧
     (w.supCount > 1 → (step w .send).1.supCount = w.supCount - 1 ∧ (step w .send).1.supUntil = w.supUntil) ∧
     (∀ d, (step w (.tick d)).1.supCount = w.supCount ∧ (step w (.tick d)).1.supUntil = w.supUntil ∧
